@@ -189,7 +189,25 @@ fn run(ctx: &Ctx) -> Run {
             }
             run.count(&format!("class.{class}"));
             run.count(&format!("res.{res:02}"));
+            if i % 16 == 7 && res >= 2 {
+                // history: the twin of the cell about to be returned (same resolution and curve position on another face /
+                // quintant) is placed and looked up immediately before
+                if let Some(c) = lookup(lon, lat, res).ok().and_then(decode) {
+                    let t = rng.below(60) as u8;
+                    let twin = encode(MCell::new(res, t / 5, t % 5, c.s));
+                    if let Ok(Ok(p)) = guard(|| a5::cell_to_lonlat(twin)) {
+                        let _ = lookup(p.longitude(), p.latitude(), res);
+                    }
+                    run.count("primed_with_the_twin_cell");
+                }
+            }
             check_lookup(run, lon, lat, res, class, i % 4 == 0);
+            // coordinate twins right after: longitude and latitude swapped, and the doubled / halved pair
+            if i % 16 == 3 && lon.abs() <= 90.0 {
+                check_lookup(run, lat, lon, res, "swapped", false);
+                check_lookup(run, lon / 2.0, lat / 2.0, res, "halved", false);
+                run.count("class.swapped_or_halved");
+            }
         }
     });
     // promised strata
